@@ -189,13 +189,16 @@ def glob_specs(w, orders, dup):
     import re as _re
     for mi, (name, samples) in enumerate(w["models"]):
         name = _re.sub(r"\W", "", name) or "M"
+        deep = bool(w.get("_deep_dirs"))
         for si, smp in enumerate(samples):
-            files[f"m{mi}/s{si}.json"] = {"text": _json.dumps(smp, ensure_ascii=False)}
-        argv += ["-m", name, "{DIR}/" + f"m{mi}/*.json"]
+            # with _deep_dirs every sample sits in its own sub-directory under the SAME base name
+            rel = f"m{mi}/d{si}/sample.json" if deep else f"m{mi}/s{si}.json"
+            files[rel] = {"text": _json.dumps(smp, ensure_ascii=False)}
+        argv += ["-m", name, "{DIR}/" + (f"m{mi}/**/*.json" if deep else f"m{mi}/*.json")]
     if dup is not None:
         mi, si = dup
         name = _re.sub(r"\W", "", w["models"][mi][0]) or "M"
-        argv += ["-m", name, "{DIR}/" + f"m{mi}/s{si}.json"]
+        argv += ["-m", name, "{DIR}/" + (f"m{mi}/d{si}/sample.json" if w.get("_deep_dirs") else f"m{mi}/s{si}.json")]
     argv += options_argv(o)
     return {"files": files, "argv": argv, "glob_order": orders, "canon": True}
 
@@ -210,6 +213,7 @@ def glob_channel(ctx, pool, rep, distinct):
         w = gen_workload(seeds.derive(ctx.seed, PROP, "globw", i), samples=rng.randint(2, 5))
         if not any(len(s) >= 2 for _, s in w["models"]):
             continue
+        w["_deep_dirs"] = rng.random() < 0.4
         ident = [list(range(len(s))) for _, s in w["models"]]
         specs.append(glob_specs(w, ident, None))
         meta.append((i, "base", None))
